@@ -1,10 +1,9 @@
 """C19, decorator family: MC_C19_deco -> replay (impl_c19.observe_deco) -> Trace_C19_deco."""
 
+import concurrent.futures as cf
 import json
 
 from common import MachineryFailure
-
-CHUNK = 30000
 
 
 def _key(r):
@@ -24,35 +23,43 @@ def _case(c):
     return {"fam": "deco", "tpl": c["tpl"], "calls": c["calls"]}
 
 
-def validate(ck, cases, obs, label):
+def validate(ck, cases, obs, label, nchunks=1):
     recs = []
     for c, o in zip(cases, obs):
         if o.get("build"):
             raise MachineryFailure(f"could not build template {c['tpl']['id']}: {o['build']}")
         steps = [{"k": s["k"], "exc": s["exc"], "called": bool(s["called"]), "same": bool(s["same"])} for s in o["steps"]]
         recs.append({"tpl": c["tpl"], "calls": c["calls"], "obs": steps})
-    npf = 0
-    for off in range(0, len(recs), CHUNK):
-        part = recs[off : off + CHUNK]
+    size = max(1, -(-len(recs) // nchunks))
+    offs = list(range(0, len(recs), size))
+
+    def one(off):
+        part = recs[off : off + size]
         path = ck.write_json(f"obs_deco_{label}_{off}.json", part)
         res = ck.tlc("Trace_C19_deco", env={"OBS": path}, workers=1, coverage=False, label=f"trace-validation decorators {label} [{off}:{off + len(part)}]", timeout=2400)
         if res.distinct != len(part) + 1:
             raise MachineryFailure(f"trace validation consumed {res.distinct} states, expected {len(part) + 1}")
-        ck.validated(len(part))
+        return off, len(part), res
+
+    with cf.ThreadPoolExecutor(max_workers=max(1, min(len(offs), 4))) as ex:
+        results = list(ex.map(one, offs))
+    out = {"validated": 0, "drift": [], "viol": [], "classes": {}}
+    for off, n, res in results:
+        out["validated"] += n
         for r in res.by_tag("T-FAIL"):
             c = cases[off + r["i"] - 1]
-            ck.drift_step("deco:" + r["template"], {"step": r["step"], "call": c["calls"][r["step"] - 1], "model": r["model"], "observed": r["observed"]})
+            out["drift"].append(("deco:" + r["template"], {"step": r["step"], "call": c["calls"][r["step"] - 1], "model": r["model"], "observed": r["observed"]}))
         for r in res.by_tag("P-FAIL"):
-            npf += 1
             c = cases[off + r["i"] - 1]
             cls = f"{r['template']}|{r['clause']}|{r['wrong_argument_given']}|extra_positional={r['extra_positional']}"
-            ck.cov.setdefault("deco_p_fail_classes", {})
-            ck.cov["deco_p_fail_classes"][cls] = ck.cov["deco_p_fail_classes"].get(cls, 0) + 1
-            ck.violation(_key(r), {"step": r["step"], "call": c["calls"][r["step"] - 1], "observed": r["observed"], "model": r["model"], "history_length": len(c["calls"])}, case=_case(c))
-    return npf
+            out["classes"][cls] = out["classes"].get(cls, 0) + 1
+            out["viol"].append((_key(r), {"step": r["step"], "call": c["calls"][r["step"] - 1], "observed": r["observed"], "model": r["model"], "history_length": len(c["calls"])}, _case(c)))
+    return out
 
 
-def run(ck):
+def pipeline(ck):
+    import c19
+
     cfg = ck.q("MC_C19_deco_quick", "MC_C19_deco_thorough")
     res = ck.tlc("MC_C19_deco", cfg, workers=1, coverage=False, label=f"decorator sweep + histories {cfg}", timeout=3000)
     cases = [r for r in res.by_tag("CASE")]
@@ -66,19 +73,10 @@ def run(ck):
         for m in c["mp"]:
             if m:
                 cex[f"{c['tpl']['id']}:{m}"] = cex.get(f"{c['tpl']['id']}:{m}", 0) + 1
-    ck.cov["deco_cases_by_template"] = by
-    ck.cov["deco_model_level_counterexamples"] = cex
     hist = [c for c in cases if len(c["calls"]) > 1]
-    if hist:
-        ck.sample({"template": hist[len(hist) // 2]["tpl"]["id"], "calls": hist[len(hist) // 2]["calls"]})
-    pc = [_case(c) for c in cases]
-    obs = ck.pmap("impl_c19", "observe", pc)
-    bad = [o for o in obs if "_error" in o]
-    if bad:
-        raise MachineryFailure("replay error: " + str(bad[0]))
-    npf = validate(ck, cases, obs, "table")
-    ck.cov["deco_cases"] = len(cases)
-    ck.cov["deco_histories"] = len(hist)
-    ck.cov["deco_calls"] = sum(len(c["calls"]) for c in cases)
-    ck.cov["deco_observed_p_fail"] = npf
-    return len(cases), len(cases)
+    obs = c19.pmap(ck, [_case(c) for c in cases])
+    out = validate(ck, cases, obs, "table", nchunks=ck.q(2, 5))
+    samples = [{"template": hist[len(hist) // 2]["tpl"]["id"], "calls": hist[len(hist) // 2]["calls"]}] if hist else []
+    out.update(cases=len(cases), nontrivial=len(cases), samples=samples,
+               cov={"deco_cases_by_template": by, "deco_model_level_counterexamples": cex, "deco_cases": len(cases), "deco_histories": len(hist), "deco_calls": sum(len(c["calls"]) for c in cases)})
+    return out
